@@ -41,7 +41,9 @@ ASSUMPTIONS = ["two-thread layer: each thread has its own updater and its own st
                "process-level nondeterminism is controlled through PYTHONHASHSEED of child interpreters; 'random' lets the interpreter pick"]
 
 NAMES = ["default", "arrivals", "service", "a", "b", "", "stream-1", "Stream 2",
-         "ü", "x" * 40, "routing", "breakdown"]
+         "ü", "x" * 40, "routing", "breakdown",
+         # distinct names whose polynomial (x31) string hashes collide
+         "Aa", "BB", "m1a", "m2B", "AaAa", "BBBB"]
 
 
 def gen_case(rng):
